@@ -223,9 +223,61 @@ def run(chk):
                 detail = ' (answer %d: got %s, expected %s; %d answers written, %d expected)' % (j, obs['answers'][j] if j < len(obs['answers']) else None, exp['answers'][j] if j < len(exp['answers']) else None, len(obs['answers']), len(exp['answers']))
             chk.violation('play', 'play:%d:%s' % (pv, k), {'case': case, 'expected': {x: exp[x] for x in diff if x != 'answers'}, 'observed': {x: obs[x] for x in diff if x != 'answers'}},
                           'protocol %d, %d server packets, threshold %s, %s arrival: %s differ%s' % (pv, len(h), thr, chunking, diff, detail or ': got %r, expected %r' % (obs.get(k), exp[k])))
+    write_fault(chk)
     chk.sample('play', {'proto': runs[0][0], 'history': repr(runs[0][1])[:200]}, k=1)
     chk.assumptions += ['the networking thread is run synchronously by the simulated transport; the server closes / stays idle after its script',
                         'packet ids of the server frames are looked up through pyCraft\'s tables (checked by C06/C07)']
+
+
+def write_fault(chk):
+    """The server says goodbye and closes; the client's answer to an earlier keep-alive can no longer be written (the socket
+    fails with whatever error the platform reports for a vanished peer).  The disconnect packet is already readable: the
+    connection must still end the documented way - packet delivered, exit callback once, no error reported."""
+    from minecraft.networking.connection import Connection
+    from minecraft.networking.packets import clientbound as cb
+    import errno
+    rng = chk.rng
+    faults = [BrokenPipeError(errno.EPIPE, 'Broken pipe'), ConnectionResetError(errno.ECONNRESET, 'reset'), ConnectionAbortedError(errno.ECONNABORTED, 'aborted'),
+              TimeoutError(errno.ETIMEDOUT, 'timed out'), OSError(errno.EHOSTUNREACH, 'No route to host'), OSError(errno.ENOTCONN, 'not connected')]
+    for pv in (47, 340, 757):
+        ids = proto.Ids(pv)
+        for fault in faults:
+            for thr in (None, 64):
+                pre = ([proto.frame(ids.set_compression, proto.varint(thr))] if thr is not None else []) + [proto.frame(ids.login_success, ids.b_login_success(), thr)]
+                first = b''.join(pre) + proto.frame(ids.keep_alive, ids.b_keep_alive(41), thr)
+                second = proto.frame(ids.play_disconnect, proto.string('{"text":"bye"}'), thr)
+                net = sim.Net([sim.Server([first], end='idle')]).install()
+                exits, excs, seen = [], [], []
+                orig_send = sim.SimSocket.send
+                nsend = [0]
+
+                def send(self_, data, orig=orig_send):
+                    nsend[0] += 1
+                    if nsend[0] > 4:                  # handshake and login start are two sends each; the peer is gone afterwards
+                        if nsend[0] == 5:
+                            net.servers[0].chunks.append(second)      # its goodbye is readable from now on
+                        raise fault
+                    return orig(self_, data)
+                sim.SimSocket.send = send
+                try:
+                    conn = Connection('localhost', 25565, username='user', allowed_versions={pv}, handle_exit=lambda: exits.append(1),
+                                      handle_exception=lambda e, i: excs.append(e))
+                    conn.register_packet_listener(lambda p: seen.append(type(p).__name__), cb.play.DisconnectPacket)
+                    conn.connect()
+                    res = net.run_threads(conn)
+                finally:
+                    sim.SimSocket.send = orig_send
+                    net.uninstall()
+                case = {'proto': pv, 'threshold': thr, 'write_error': '%s(errno %s)' % (type(fault).__name__, fault.errno)}
+                chk.count('write-fault', case, True)
+                obs = {'disconnect_packet_delivered': seen == ['DisconnectPacket'], 'exits': len(exits), 'errors': [exn_name(e) for e in excs],
+                       'recorded': None if conn.exception is None else exn_name(conn.exception), 'outcome': res[0][1] if isinstance(res[0][1], str) else 'raised:' + exn_name(res[0][1][1])}
+                exp = {'disconnect_packet_delivered': True, 'exits': 1, 'errors': [], 'recorded': None, 'outcome': 'exit'}
+                if obs != exp:
+                    k = next(k for k in exp if obs[k] != exp[k])
+                    chk.violation('write-fault', 'write-fault:%d:%s:%s' % (pv, type(fault).__name__, fault.errno), {'case': case, 'expected': exp, 'observed': obs},
+                                  'protocol %d: the server sent its disconnect packet and closed, the pending keep-alive answer failed with %s: %s is %r (expected %r)' % (
+                                      pv, case['write_error'], k, obs[k], exp[k]))
 
 
 def replay(chk, rp):
